@@ -9,6 +9,7 @@ pub mod c03;
 pub mod c04;
 pub mod c05;
 pub mod c06;
+pub mod c07;
 pub mod c08;
 pub mod c09;
 pub mod c11;
@@ -37,6 +38,10 @@ pub fn run(ctx: &mut Ctx) -> bool {
             ctx.rule = c06::RULE.into();
             crate::util::start_watchdog("C06".into(), 120);
             c06::run(ctx)
+        }
+        "C07" => {
+            ctx.rule = c07::RULE.into();
+            c07::run(ctx)
         }
         "C08" => {
             ctx.rule = c08::RULE.into();
